@@ -466,6 +466,7 @@ pub fn check_op<O: Subject>(op: &O, wits: &[Wit<O::W>], show: &dyn Fn(&O::W) -> 
             }
         }
         // (3) circuit model / min_k / exposure count
+        let mut model_fail: Option<String> = None;
         match model_snap(op, Value::known(wit.w.clone())) {
             Ok((m, _, nexp)) => {
                 if m != model_u {
@@ -486,21 +487,22 @@ pub fn check_op<O: Subject>(op: &O, wits: &[Wit<O::W>], show: &dyn Fn(&O::W) -> 
                 }
             }
             Err(p) => {
-                if wit.in_domain {
-                    same = false;
-                    out.viol(Viol::new(
-                        format!("{name}:keygen-fails-with-witness:panic"),
-                        format!("sizing the circuit (cost model / min_k) with the in-domain witness [{}] panics although it succeeds without a witness: {p}", wit.label),
-                        detail(&wit.label, &ws),
-                    ));
-                } else {
-                    out.count("ood:model-panic", 1);
-                }
+                // `cost_model_options` unwraps the synthesis result: judged together with keygen below
+                model_fail = Some(p);
+                out.count(if wit.in_domain { "model-panic-in-domain" } else { "ood:model-panic" }, 1);
             }
         }
         // (1) verifying key
         match keygen_snap(op, Value::known(wit.w.clone()), k, cfg.seed) {
             KeyOutcome::Ok(s) => {
+                if let (Some(p), true) = (&model_fail, wit.in_domain) {
+                    same = false;
+                    out.viol(Viol::new(
+                        format!("{name}:keygen-fails-with-witness:panic"),
+                        format!("sizing the circuit (cost model / min_k) with the in-domain witness [{}] panics although keygen accepts it and sizing succeeds without a witness: {p}", wit.label),
+                        detail(&wit.label, &ws),
+                    ));
+                }
                 if s.bytes != key_u.bytes || s.repr != key_u.repr {
                     same = false;
                     let pos = s.bytes.iter().zip(&key_u.bytes).position(|(a, b)| a != b);
